@@ -109,8 +109,12 @@ def flags_for(repo, config, shadow):
     return fl
 
 
+CANON = "canon-1"      # version of canonicalise(); part of the cache key
+
+
 def content_key(repo, config, extra):
     h = hashlib.sha256()
+    h.update(CANON.encode())
     h.update(sha(TOOL).encode())
     h.update(config.encode())
     for p in repo_sources(repo) + repo_headers(repo) + list(extra):
@@ -243,6 +247,7 @@ class DB(object):
             if f["id"] in self.functions:
                 continue
             f["_types"] = types
+            canonicalise(f)
             self.functions[f["id"]] = f
         for r in batch["records"]:
             if r["name"] in self.records:
@@ -509,6 +514,74 @@ def expr_str(n, depth=0):
     if k == "StringLiteral":
         return '"%s"' % n.get("str", "")
     return k + "(" + ", ".join(expr_str(x) for x in c) + ")"
+
+
+_MIRROR = {"<": ">", ">": "<", "<=": ">=", ">=": "<=", "==": "==", "!=": "!="}
+_INVERT = {"<": ">=", ">": "<=", "<=": ">", ">=": "<", "==": "!=", "!=": "=="}
+
+
+def canonicalise(f):
+    """Rewrite, in place, three spellings into one so that shape rules do not depend on them (same value on every input,
+    built-in operators on integers / pointers / enums only):
+        !(a OP b)            ->  a INV(OP) b
+        CONST OP x           ->  x MIRROR(OP) CONST          (comparisons)
+        x = x + e, x = e + x ->  x += e ;   x = x - e  ->  x -= e      (x free of calls)
+    The outer node keeps its id (CFG conditions and elements stay attached)."""
+    types = f.get("_types")
+
+    def tyk(n):
+        t = n.get("t")
+        if isinstance(t, int) and types and 0 <= t < len(types):
+            t = types[t]
+        return (t or {}).get("k") if isinstance(t, dict) else None
+
+    def scalar(n):
+        return tyk(strip(n)) in ("int", "bool", "enum", "ptr") or tyk(n) in ("int", "bool", "enum", "ptr")
+
+    def pure(n):
+        return not any(x.get("k") in ("CallExpr", "CXXMemberCallExpr", "CXXOperatorCallExpr", "UnaryOperator") and
+                       (x.get("k") != "UnaryOperator" or x.get("op") in ("++", "--")) for x in walk(n))
+
+    def rec(n):
+        if not isinstance(n, dict):
+            return
+        for c in n.get("c", []) or []:
+            rec(c)
+        k = n.get("k")
+        if k == "UnaryOperator" and n.get("op") == "!" and n.get("c"):
+            inner = n["c"][0]
+            while isinstance(inner, dict) and inner.get("k") in ("ParenExpr", "ImplicitCastExpr") and inner.get("c"):
+                inner = inner["c"][0]
+            if isinstance(inner, dict) and inner.get("k") == "BinaryOperator" and inner.get("op") in _INVERT and \
+                    scalar(inner["c"][0]) and scalar(inner["c"][1]):
+                keep = dict((a, n[a]) for a in ("id", "l", "t") if a in n)
+                n.clear()
+                n.update(keep)
+                n.update({"k": "BinaryOperator", "op": _INVERT[inner["op"]], "c": inner["c"]})
+                k = "BinaryOperator"
+        if k == "BinaryOperator" and n.get("op") in _MIRROR and len(n.get("c", [])) == 2:
+            l, r = n["c"]
+            if cval(l) is not None and cval(r) is None and scalar(r):
+                n["c"] = [r, l]
+                n["op"] = _MIRROR[n["op"]]
+        if k == "BinaryOperator" and n.get("op") == "=" and len(n.get("c", [])) == 2:
+            lhs, rhs = n["c"]
+            r0 = rhs
+            while isinstance(r0, dict) and r0.get("k") in ("ParenExpr", "ImplicitCastExpr") and r0.get("c"):
+                r0 = r0["c"][0]
+            if isinstance(r0, dict) and r0.get("k") == "BinaryOperator" and r0.get("op") in ("+", "-") and scalar(lhs) and \
+                    tyk(lhs) != "ptr" and pure(lhs):
+                a, b = r0["c"]
+                lt = expr_str(lhs)
+                if expr_str(a) == lt:
+                    n["k"], n["op"], n["c"] = "CompoundAssignOperator", r0["op"] + "=", [lhs, b]
+                elif r0["op"] == "+" and expr_str(b) == lt:
+                    n["k"], n["op"], n["c"] = "CompoundAssignOperator", "+=", [lhs, a]
+    if f.get("body"):
+        rec(f["body"])
+    for i in f.get("inits", []) or []:
+        if i.get("e"):
+            rec(i["e"])
 
 
 def single_assign(f):
